@@ -17,6 +17,7 @@
 #include <stdarg.h>
 #include <string.h>
 #include <stdint.h>
+#include <time.h>
 
 #ifdef __cplusplus
 extern "C" {
@@ -53,6 +54,8 @@ void print_nodes(const uint32_t *in, size_t inlen);
 
 
 int format_print(FILE *fp, int format, int indent, const char *str, ...);
+// prints "label: " and the ctime() text of tv, without ctime()'s shared static buffer
+int format_time(FILE *fp, int format, int indent, const char *label, time_t tv);
 int format_bytes(FILE *fp, int format, int indent, const char *str, const uint8_t *data, size_t datalen);
 int format_string(FILE *fp, int format, int indent, const char *str, const uint8_t *data, size_t datalen);
 
